@@ -36,17 +36,24 @@ def make_noise(spec):
     return nz
 
 
-def rand_noise(rng, zero=False, allow_pauli=True):
+BITS = {(0, 1): 0, (3, 16): 4, (3, 8): 3, (3, 4): 2, (1, 1): 2, (1, 4): 2, (1, 2): 1}
+
+
+def rand_noise(rng, budget, allow_pauli=True):
+    """one noise item; `budget` = [bits left]: TLC integers are 32 bit, so the product of all weight denominators of
+    one circuit is kept below 2^26 (the generator stops adding weighted noise when the budget is used up)"""
     r = rng.random()
     after = rng.random() < 0.6
     if r < 0.45:
         return {"m": "none", "p": [0, 1], "letter": 0, "after": True}
     if r < 0.7:
-        p = (0, 1) if zero else rng.choice(DEP)
+        p = rng.choice([x for x in DEP if BITS[x] <= budget[0]])
+        budget[0] -= BITS[p]
         return {"m": "dep", "p": list(p), "letter": 0, "after": after}
     if r < 0.85 and allow_pauli:
-        return {"m": "pauli", "p": [0, 1], "letter": 0 if zero else rng.choice([0, 1, 2, 3]), "after": after}
-    p = (0, 1) if zero else rng.choice(LOSS)
+        return {"m": "pauli", "p": [0, 1], "letter": rng.choice([0, 1, 2, 3]), "after": after}
+    p = rng.choice([x for x in LOSS if BITS[x] <= budget[0]])
+    budget[0] -= BITS[p]
     return {"m": "loss", "p": list(p), "letter": 0, "after": after}
 
 
@@ -99,20 +106,21 @@ def trace_for(tid, rng, with_meas):
     regs = [["e", i] for i in range(n_e)] + [["p", i] for i in range(n_p)]
     wr = cz.library_wrappers()
     prog, noise = [], []
+    budget = [26]
     for _ in range(rng.randint(2, 8)):
         r = rng.random()
         if r < 0.4:
             prog.append({"k": rng.choice(cz.ONEQ), "r": [rng.choice(regs)], "c": None})
-            noise.append([rand_noise(rng)])
+            noise.append([rand_noise(rng, budget)])
         elif r < 0.55:
             w = rng.choice(wr)
             prog.append({"k": "OneQubitGateWrapper", "r": [rng.choice(regs)], "c": None, "w": w})
-            noise.append([rand_noise(rng) for _ in w])
+            noise.append([rand_noise(rng, budget) for _ in w])
         elif r < 0.85 or not with_meas:
             a = ["e", rng.randrange(n_e)]
             b = rng.choice([x for x in regs if x != a])
             prog.append({"k": rng.choice(cz.TWOQ), "r": [a, b], "c": None})
-            noise.append([rand_noise(rng), rand_noise(rng)])
+            noise.append([rand_noise(rng, budget), rand_noise(rng, budget)])
         else:
             k = rng.choice(["MeasurementZ", "MeasurementCNOTandReset", "ClassicalCNOT"])
             if k == "MeasurementZ":
